@@ -78,13 +78,35 @@ def stmt_failure(desc, ints, peaks, dt, upsample=False):
     return None
 
 
+def byteorder_failure(desc, ints, peaks, dt):
+    """the same values in the non-native byte order of a dtype (big-endian detector / MRC / FITS data): process_frames_full gives what the
+    native array gives (process_frames_fast hands the frames to numba, which rejects non-native arrays at HEAD: not exercised)"""
+    pattern = cl.pattern_from_desc(desc)
+    native = ints.astype(dt)[np.newaxis]
+    swapped = native.astype(native.dtype.newbyteorder('S'))
+    if not np.array_equal(native, swapped):
+        return None
+    try:
+        a = cc.process_frames_full(pattern, swapped, np.asarray(peaks))
+        b = cc.process_frames_full(pattern, native, np.asarray(peaks))
+    except Exception as e:  # noqa
+        return 'process_frames_full raised %s for dtype %s: %s' % (type(e).__name__, swapped.dtype.str, str(e)[:200])
+    for nm, x, y in zip(('centres', 'refineds', 'heights', 'elevations'), a, b):
+        if not np.array_equal(x, y, equal_nan=True):
+            return 'process_frames_full: %s for byte-swapped dtype %s %s differ from the native-order result %s' % (nm, swapped.dtype.str, np.asarray(x).tolist(), np.asarray(y).tolist())
+    return None
+
+
 def mk_replay(desc, ints, peaks, dt, fail, upsample=False):
     return {'kind': 'input', 'call': 'process_frames_fast/full', 'args': {'pattern': desc, 'ints': np.asarray(ints).tolist(), 'peaks': [list(map(int, p)) for p in peaks], 'dtype': dt, 'upsample': upsample}, 'failure': fail}
 
 
 def replay(body):
     a = body['args']
-    fail = stmt_failure(a['pattern'], np.array(a['ints'], dtype=np.int64), [tuple(p) for p in a['peaks']], a['dtype'], a.get('upsample', False))
+    if a.get('byteorder'):
+        fail = byteorder_failure(a['pattern'], np.array(a['ints'], dtype=np.int64), [tuple(p) for p in a['peaks']], a['dtype'])
+    else:
+        fail = stmt_failure(a['pattern'], np.array(a['ints'], dtype=np.int64), [tuple(p) for p in a['peaks']], a['dtype'], a.get('upsample', False))
     print(json.dumps({'failure_now': fail}, indent=1))
     if fail:
         print('VIOLATION property=C15 replay=(given)')
@@ -189,6 +211,14 @@ def run(ctx):
                 # a stack of three frames with different content (the batch helpers re-use their buffers from frame to frame)
                 ints = np.stack([ints, np.roll(ints, 3, axis=0)[::-1], np.roll(ints, -2, axis=1)])
             fail = stmt_failure(desc, ints, peaks, dt, ups)
+            if not fail and ints.ndim == 2 and np.dtype(dt).itemsize > 1 and k % 2 == 0:
+                fail = byteorder_failure(desc, ints, peaks, dt)
+                if fail:
+                    r_ = mk_replay(desc, ints, peaks, dt, fail, ups)
+                    r_['args']['byteorder'] = True
+                    ctx.violation('input', fail, r_)
+                    found = True
+                    break
             ctx.count(2 * len(peaks), key=(desc, fy, fx, peaks, dt, stack, ups))
             ctx.hist('dtype', dt)
             if fail:
